@@ -96,8 +96,30 @@ def run_e2e(ctx, nhost, tag):
         hosts.append(("corpus:" + os.path.basename(f), t))
     for i in range(nhost - len(hosts)):
         hosts.append(("gen%d" % i, progs.gen_program(rng, cfg, level=rng.choice([1, 2, 3, 4]))))
+    # hosts that probe configured methods on fresh literals (C12's probe file: results that show whole declared return types),
+    # with fragments that call methods on union receivers of two literal classes in both orders
+    from . import C12
+    probe = C12.probe_text(cfg)
+    pairs = C12.union_pair_programs(rng, cfg, 30)        # every ordered pair of the literal classes
     jobs = []
+    for pi, (pname, ptext) in enumerate(pairs):
+        frag = [l.replace("uq", "zfu%d" % pi).replace("aq", "zfa%d" % pi).replace("rq", "zfr%d" % pi) for l in ptext.rstrip("\n").split("\n")]
+        # keep the calls ti accepts: a fragment that is reported on its own is not used (two passes: dropping a line may unmask another)
+        for _ in range(2):
+            meta.write(wd, "pf.rb", "\n".join(frag) + "\n")
+            rc, so, se = common.run_ti(ctx.ti, ["pf.rb"], wd)
+            badrows = set(r for p_, r, x in meta.parse(so) if r is not None and not is_type_text(x))
+            frag = [l for i, l in enumerate(frag, 1) if i not in badrows or i <= 2]
+        if len(frag) <= 2:
+            continue
+        hosts.append(("probe+" + pname, probe))
+        hi = len(hosts) - 1
+        plines = probe.rstrip("\n").split("\n")
+        j = 0 if pi % 3 else len(plines) // 3
+        jobs.append((hi, "probe+" + pname, probe, "\n".join(plines[:j] + frag + plines[j:]) + "\n", j, len(frag), "insert", "\n".join(frag) + "\n"))
     for hi, (hname, host) in enumerate(hosts):
+        if hname.startswith("probe+"):
+            continue
         lines = host.rstrip("\n").split("\n")
         bs = boundaries(lines)
         picks = rng.sample(bs, min(len(bs), 2)) if bs else []
